@@ -281,6 +281,25 @@ class Scan:
         if self.head is None:
             ctx.missing(rid, '%s: the scan loop' % fn)
         self.body_blocks = self.loops[self.head]
+        # `loop { state = match state { Probe => .., Matched(i) => .., Miss => .. } }`: which step follows which is in a variable.
+        # The rules below read one iteration as one path from the loop head back to it; a dispatch on a state assigned inside the
+        # loop makes every step a successor of every other as far as paths go - not a shape these rules decide.
+        self.state_machine = None
+        import flow as _flow
+        for bi in sorted(self.body_blocks):
+            t = b.blocks[bi]['term']
+            if t['k'] != 'switch' or t['on']['k'] == 'const' or t['on']['p']['proj'] or len(t['targets']) < 2:
+                continue
+            for st in b.blocks[bi]['stmts']:
+                rv = st['rv']
+                if st['dst']['l'] == t['on']['p']['l'] and rv['k'] == 'discr' and not rv['p']['proj']:
+                    L = rv['p']['l']
+                    ty = b.local_ty(L)
+                    if ty.startswith(('std::', 'core::', '&')) or _flow.ENUMS.get(ty) is None:
+                        continue
+                    inside = [d for d in fl.defs.get(L, []) if d[0] in self.body_blocks]
+                    if inside and self.cfg.dominates(bi, pb):
+                        self.state_machine = '%s (%s)' % (b.local_name(L) or '_%d' % L, ty.split('::')[-1])
 
     def is_src(self, os_):
         return bool(os_) and {(o.kind, o.key, o.bb) for o in os_ if o.kind != 'comb'} <= self.src_sig and bool({(o.kind, o.key, o.bb) for o in os_} & self.src_sig)
